@@ -4,7 +4,7 @@ import Revm.Model.Db
 `base-acct a bal nonce codehash code` / `base-slot a k v` / `base-code h bytes khash` / `base-bh n h`
 (only while the top is the generated map), `wrap cache|state|wrapref|box|mutref|components`,
 `q|r basic a` / `q|r storage a k` / `q|r code h` / `q|r bh n hint` / `q|r hs a` (`q` = `Database`,
-`r` = `DatabaseRef`), and on a `CacheDB` top (or `&mut` of one for `commit`):
+`r` = `DatabaseRef`; `paths …` = the same read through every access path, see `pathAnswers`), and on a `CacheDB` top (or `&mut` of one for `commit`):
 `ins-info a bal nonce codehash code khash`, `ins-slot a k v`, `rep-storage a k:v/k:v`, `load a`,
 `commit chg chg …` with `chg = addr,flags,bal,nonce,codehash,code,khash,k:v/k:v`. -/
 namespace Driver.Db
@@ -47,6 +47,12 @@ def setOracle (k : Nat → Nat) : Db → Db
 /-- which tops the harness can hand on as a `DatabaseRef` -/
 def canRef : Db → Bool
   | .base _ => true | .empty _ => true | .cache _ _ => true | .components _ => true | _ => false
+
+/-- which values the harness can borrow as a `DatabaseRef` for `r` / `paths`: as `canRef`, plus
+`Box<CacheDB>` and the `CacheDB` behind a `&mut` -/
+def refView : Db → Bool
+  | .fwd (.cache _ _) => true
+  | d => canRef d
 
 def codeStr (c : Code) : String := bytesToHex c.bytes
 def optCodeStr : Option Code → String | none => "none" | some c => codeStr c
@@ -95,6 +101,23 @@ def parseQuery? : List String → Option Query
   | ["bh", n, _] => (parseHex? n).map .blockHash
   | ["hs", a] => (parseHex? a).map .hasStorage
   | _ => none
+
+/-- `paths`: the same read through every access path the harness builds around a borrowed
+`DatabaseRef` of the current value `d` (which is not written) -/
+def pathAnswers (d : Db) (q : Query) : List (String × Reply) :=
+  let v := d.view.answer q
+  let n1 := Db.cache d CacheDB.new
+  let n2 := Db.cache n1 CacheDB.new
+  let st0 := Db.state (.wrapRef d) StateDb.new
+  let st := match q with | .storage a _ => (st0.query (.basic a)).1 | _ => st0
+  [("ref", v), ("amp", v), ("ampamp", v), ("boxref", v), ("arc", v), ("rc", v),
+   ("wrap", ((Db.wrapRef d).query q).2),
+   ("wrapmut", ((Db.fwd (.wrapRef d)).query q).2),
+   ("wrapbox", ((Db.fwd (.wrapRef d)).query q).2),
+   ("nested", (n1.query q).2), ("nestedref", n1.view.answer q), ("nestedagain", ((n1.query q).1.query q).2),
+   ("nested2", (n2.query q).2), ("nested2ref", n2.view.answer q),
+   ("state", (st.query q).2),
+   ("comp", ((Db.components (.wrapRef d)).query q).2), ("compref", (Db.components d).view.answer q)]
 
 def stateStr : AccState → String
   | .notExisting => "notexisting" | .touched => "touched" | .storageCleared => "cleared" | .none => "none"
@@ -177,8 +200,20 @@ def handle (s : St) (toks : List String) : St × String :=
            | _ => (s, db)
          let r := db1.query q
          ({ s1 with db := some r.1 }, replyStr r.2))
+    | "paths" :: rest =>
+      if !refView db then (s, "bad-op") else
+      (match parseQuery? rest with
+       | none => (s, "bad-op")
+       | some q =>
+         let (s1, db1) := match rest with
+           | ["bh", n, hint] => (match parseHex? n, parseHex? hint with
+             | some n, some h => let o := (n, h) :: s.oracle; ({ s with oracle := o }, setOracle (oracleFn o) db)
+             | _, _ => (s, db))
+           | _ => (s, db)
+         ({ s1 with db := some db1 },
+          ";".intercalate ((pathAnswers db1 q).map (fun p => s!"{p.1}={replyStr p.2}"))))
     | "r" :: rest =>
-      if !canRef db then (s, "bad-op") else
+      if !refView db then (s, "bad-op") else
       (match parseQuery? rest with
        | none => (s, "bad-op")
        | some q =>
